@@ -4,6 +4,7 @@ import math
 import re
 from uuid import UUID
 
+from ..common import safe_repr
 from .. import conforms, runner, valcases, valcorr
 from ..common import d42  # noqa: F401
 from th import PathHolder
@@ -94,14 +95,14 @@ def fact_holds(e, fmt):
 def oracle(ctx, cases):
     fmt = Formatter()
     for c in cases:
-        ctx.case((repr(c.schema), repr(c.value)), bool(c.real))
+        ctx.case((safe_repr(c.schema), safe_repr(c.value)), bool(c.real))
         if c.real_exc is not None or not c.real:
             continue
         for e in c.real:
             ctx.count("errors_checked")
             depth = len(e.path)
             ctx.count("depth:%d" % min(depth, 4))
-            info = dict(schema=repr(c.schema), value=repr(c.value), error=repr(e), py_schema=c.schema, py_value=c.value)
+            info = dict(schema=safe_repr(c.schema), value=safe_repr(c.value), error=safe_repr(e), py_schema=c.schema, py_value=c.value)
             try:
                 reached = follow(c.value, e.path)
             except Exception as ex:  # noqa: BLE001
@@ -109,7 +110,7 @@ def oracle(ctx, cases):
                 continue
             if not same(reached, e.actual_value):
                 ctx.violation("following the error's path reaches a different sub-value than the error reports",
-                              reached=repr(reached), **info)
+                              reached=safe_repr(reached), **info)
                 continue
             try:
                 ok = fact_holds(e, fmt)
@@ -122,7 +123,7 @@ def oracle(ctx, cases):
                 msg = e.format(fmt)
             except Exception as ex:  # noqa: BLE001
                 ctx.violation("rendering a returned error raised %s (no message names its path)" % type(ex).__name__,
-                              exception=repr(ex), **info)
+                              exception=safe_repr(ex), **info)
                 continue
             # rendering must not disturb the error: same message again, path still resolves to the same sub-value
             try:
@@ -171,6 +172,9 @@ def run(ctx):
     from .. import hostile
     cases += hostile.defaulting_dict_cases()
     cases += hostile.sentinel_value_cases()
+    cases += hostile.same_name_alias_cases()
+    cases += hostile.shared_object_cases()
+    cases += hostile.special_key_cases()
     cases += hostile.touchy_cases()
     for c in cases:
         valcorr.run_real(c)
@@ -180,10 +184,22 @@ def run(ctx):
     oracle(ctx, cases)
     from .. import limits
     limits.identity_key_probe(ctx)
+
+    def check(s, v, errs, label, fresh=None):
+        ctx.count("revalidation_steps")
+        if fresh is not None and [safe_repr(e) for e in errs] != fresh:
+            ctx.violation("validating the same schema and value objects again after the value was changed in place does not "
+                          "describe the value as it is now (%s)" % label, schema=safe_repr(s), value=safe_repr(v),
+                          errors=[safe_repr(e) for e in errs][:4], errors_of_an_independent_copy=fresh[:4])
+            return
+        c = valcorr.ValCase(s, v, "revalidation")
+        c.real, c.real_exc = list(errs), None
+        oracle(ctx, [c])
+    hostile.revalidation_sequences(check)
     dis = valcorr.compare(cases, ctx, view="errors")
     for c, detail in dis[:10]:
         ctx.breakage("correspondence", "error multiset (kind, path, actual, parameter) differs between model and code",
-                     schema=repr(c.schema), value=repr(c.value), detail=detail, request=c.req)
+                     schema=safe_repr(c.schema), value=safe_repr(c.value), detail=detail, request=c.req)
     ctx.cov["corr_disagreements"] = len(dis)
     if not ctx.quick():
         # thorough: the whole small scope, both validators, full error lists (kind, path, actual, parameter) and the oracle
@@ -194,7 +210,7 @@ def run(ctx):
     for c in cases:
         if c.real and k < 5 and len(c.real[0].path) >= 2:
             k += 1
-            ctx.sample({"schema": repr(c.schema), "value": repr(c.value), "errors": [repr(e) for e in c.real[:3]]})
+            ctx.sample({"schema": safe_repr(c.schema), "value": safe_repr(c.value), "errors": [safe_repr(e) for e in c.real[:3]]})
 
 
 def replay(path):
